@@ -15,7 +15,7 @@ INFO = {
             "sequential result. (c) entry points: parse on bytes/bytearray/memoryview, parse_stream at offsets 0/1/3 (value and consumed "
             "length), parse_file; build/build_stream/build_file, for tier T1-T2 terms and extras x values. non-trivial = a call whose "
             "result was compared after at least one other call / under a schedule with a preemption / through a second entry point",
-    "bounds": {"quick": {"history_depth": 2, "preemptions": 1}, "thorough": {"history_depth": 3, "preemptions": 2}},
+    "bounds": {"quick": {"repeat": 200, "history_depth": 2, "preemptions": 1}, "thorough": {"history_depth": 3, "preemptions": 2}},
     "trusted_base": ["mc/sched.py (sys.settrace line scheduler)", "the fingerprint walk in this module"],
     "assumptions": ["documented exceptions: Rebuffered.stream2, Debugger.retval (not in the pool); gzip output is time-stamped (not in the pool)",
                     "preemption inside a source line and free-threaded memory effects are not modelled"],
@@ -66,10 +66,42 @@ class Pool:
         self.objects = {k: v for k, v in vars(self).items() if k.startswith("P") or k in ("inner", "enum")}
 
 
+_LAST_RAW = [None]
+
+
+def scramble(v, depth=0):
+    """what a caller may do with a value it was handed: edit it in place, at every depth"""
+    if depth > 6:
+        return
+    if isinstance(v, dict):
+        for k in list(v.keys()):
+            x = v[k]
+            if isinstance(k, str) and k.startswith("_"):
+                continue
+            if isinstance(x, bool):
+                dict.__setitem__(v, k, not x)
+            elif isinstance(x, int) and type(x) is int:
+                dict.__setitem__(v, k, x + 1)
+            elif isinstance(x, (dict, list)):
+                scramble(x, depth + 1)
+        dict.__setitem__(v, "scrambled", 1)
+    elif isinstance(v, list):
+        for i, x in enumerate(list(v)):
+            if isinstance(x, (dict, list)):
+                scramble(x, depth + 1)
+            elif isinstance(x, int) and type(x) is int:
+                list.__setitem__(v, i, x + 1)
+        list.append(v, 99)
+
+
 def calls():
     """name -> function(pool) performing one public call; results are normalised / exceptions named"""
     def P(attr, data, **kw):
-        return lambda p: T.norm(getattr(p, attr).parse(data, **kw))
+        def call(p):
+            raw = getattr(p, attr).parse(data, **kw)
+            _LAST_RAW[0] = raw
+            return T.norm(raw)
+        return call
     def B(attr, v, **kw):
         return lambda p: getattr(p, attr).build(v, **kw)
     def S(attr, **kw):
@@ -295,6 +327,7 @@ def units(tier):
     return us
 
 
+REPEAT = 200
 _PRISTINE = {}
 
 
@@ -328,6 +361,39 @@ def run_history(unit, tier, r):
                         "the fingerprint of the construct objects / module globals changed after %r: %s" % (first, diff_fp(Pool(), cs[first])))
         if res != base[first]:
             r.violation("C17/nondeterministic-call/" + first.split(" ")[0], {"history": [first]}, "%r gives %r on one fresh pool and %r on another" % (first, res, base[first]))
+        # the value handed out belongs to the caller: editing it in place must not change what the next call returns
+        if ".parse" in first and res[0] == "ok" and isinstance(_LAST_RAW[0], (dict, list)):
+            try:
+                scramble(_LAST_RAW[0])
+            except Exception:
+                pass
+            _LAST_RAW[0] = None
+            again = do(p, cs[first])
+            r.case(key=("alias", first), nontrivial=True, outcome="alias", transitions=2, validated=1)
+            if again != base[first]:
+                r.violation("C17/result-aliased-to-library-state/" + first.split(" ")[0], {"alias": first},
+                            "%r, then editing the returned value in place, then %r again gives %r instead of %r" % (first, first, again, base[first]))
+            for other in (n for n in names if n != first and n.split(".")[0] == first.split(".")[0] and ".parse" in n):
+                o = do(p, cs[other])
+                if o != base[other]:
+                    r.violation("C17/result-aliased-to-library-state/" + other.split(" ")[0], {"alias": first, "then": other},
+                                "after %r and editing its result in place, %r gives %r instead of %r" % (first, other, o, base[other]))
+        # a long history: the same call 200 times on one pool (counters, growing caches, leaked nesting levels), then every call once
+        p = Pool()
+        for i in range(REPEAT):
+            o = do(p, cs[first])
+            if o != base[first]:
+                r.violation("C17/result-depends-on-history/" + first.split(" ")[0], {"repeat": first, "times": i + 1},
+                            "call #%d of %r on the same pool gives %r, the first gave %r" % (i + 1, first, o, base[first]))
+                break
+        r.transitions += REPEAT
+        r.case(key=("repeat", first), nontrivial=True, outcome="repeat", transitions=0, validated=1)
+        for n in names:
+            o = do(p, cs[n])
+            r.transitions += 1
+            if o != base[n]:
+                r.violation("C17/result-depends-on-history/" + n.split(" ")[0], {"repeat": first, "times": REPEAT, "then": n},
+                            "after %d x %r the call %r gives %r, on a pristine pool %r" % (REPEAT, first, n, o, base[n]))
         # all histories starting with `first`
         seconds = names
         for second in seconds:
@@ -662,6 +728,12 @@ def run_unit(unit, tier):
 
 def replay(case):
     r = UnitResult()
+    if "repeat" in case:
+        run_history({"first": [case["repeat"]]}, "quick", r)
+        return [v for v in r.violations if "repeat" in v["case"]]
+    if "alias" in case:
+        run_history({"first": [case["alias"]]}, "quick", r)
+        return [v for v in r.violations if "alias" in v["case"]]
     if "fresh" in case:
         run_fresh({"names": [case["fresh"]]}, "quick", r)
         return r.violations
